@@ -9,34 +9,31 @@ def _c06_nontrivial(req, out):
 CFG = {
     "level": "proof",
     "level_text": "Lean 4 theorems over an executable model of JsonIndex navigation, for every document rendered from a JSON "
-                  "value tree with arbitrary RFC 8259 whitespace (Doc of Spec/JsonSimple): index_structure (BP = balanced tree "
-                  "encoding with a leaf 10 per scalar and key, IB = first bytes of the node tokens in document order); "
-                  "navigate_eq (walking value()/uncons/children/as_str/raw_bytes from the root = value of the tree: fields in "
-                  "source order with duplicates, elements, decoded strings, numbers as literal text, booleans, null); "
-                  "find_last_dup (lookup by name = last field with that decoded key; None as soon as a key fails to decode); "
-                  "and for every byte string: decode_escapes_eq (= specification decoder incl. surrogate pairs and every error), "
-                  "string_end_eq, raw_and_escaped_eq, number_span_eq. raw_range_eq_partial: text_range = token / bracketed span "
-                  "for every located value or key and for the root; the packaging over all nodes of the walk is not exported. "
-                  "Not proved: the bridge from Doc renderings to C08's Valid grammar (Doc allows any byte >= 0x20 and any "
-                  "\\uXXXX inside strings, a superset; strings that do not decode are compared as errors); the preorder "
-                  "enumeration of node start offsets as a tree-level function (the IB statement is at token level); "
-                  "Prims.fast (array-backed primitives the driver uses for documents > 3000 bytes) is cross-checked against "
-                  "the specification primitives on every document <= 1500 bytes but not proved equal.",
-    "level_note": "BalancedParens::{is_open, find_close, enclose, rank1, first_child, next_sibling, parent} are taken at their "
-                  "Spec/BP / Spec/Bits definitions (C04, still being built), ib_select1_from at C07's text_position_eq, the "
-                  "semi-index at C05's reference, core::str::from_utf8 at Table 3-7 well-formedness, char::from_u32 at "
-                  "'is a scalar value'; as_f64 is not modelled (trusted core parsing).",
+                  "value tree with arbitrary RFC 8259 whitespace (Doc of Spec/JsonSimple), proved to be exactly the Valid texts of "
+                  "C08's grammar when the strings are well-formed (docs_are_valid_texts / valid_texts_are_docs): "
+                  "index_structure + index_structure_preorder (BP = balanced tree encoding with a leaf 10 per scalar and key; the "
+                  "k-th interest bit = first byte of the k-th node in preorder); navigate_eq and navigate_eq_composed (walking "
+                  "value()/uncons/children/as_str/raw_bytes from the root = value of the tree, the latter over the composed model "
+                  "C05 builder + C04 BalancedParens + C07 IB select with no navigation hypotheses, for texts < 2^30 bytes); "
+                  "find_last_dup; raw_range_eq (text_range of EVERY node of the walk = its token / bracketed span); and for every "
+                  "byte string decode_escapes_eq, string_end_eq, raw_and_escaped_eq, number_span_eq. prims_fast_eq: the driver's "
+                  "array-backed primitives are the specification primitives.",
+    "level_note": "BalancedParens primitives are discharged by C04 (is_open_eq, find_close_family_eq, method_enclose_eq, rank1_eq; "
+                  "side conditions |words| = ceil(len/64), len < 2^31), ib_select1_from by C07 text_position_eq, the semi-index by "
+                  "C05. Still trusted: core::str::from_utf8 = Table 3-7 well-formedness, char::from_u32 = 'is a scalar value'; "
+                  "as_f64 is not modelled (trusted core parsing).",
     "technique": "Lean 4 proof over an executable model of JsonIndex navigation; differential correspondence (whole navigated "
                  "tree dump) vs compiled model, plus an in-process reference reader verdict",
     "variants": [{"features": []}],
     "lean_modules": ["SuccinctlyVerif.Props.C06"],
     "lean_files": ["SuccinctlyVerif/Props/C06.lean", "SuccinctlyVerif/Proof/JsonNav.lean",
-                   "SuccinctlyVerif/Proof/JsonNavTree.lean", "SuccinctlyVerif/Proof/JsonNavDecode.lean", "SuccinctlyVerif/Proof/JsonNavRange.lean",
+                   "SuccinctlyVerif/Proof/JsonNavTree.lean", "SuccinctlyVerif/Proof/JsonNavDecode.lean", "SuccinctlyVerif/Proof/JsonNavRange.lean", "SuccinctlyVerif/Proof/JsonNavFull.lean",
+                   "SuccinctlyVerif/Proof/JsonNavFast.lean", "SuccinctlyVerif/Proof/JsonBridge.lean", "SuccinctlyVerif/Model/JsonNavFull.lean",
                    "SuccinctlyVerif/Model/JsonNav.lean"],
     "generated": ["C05:", "tables"],
     "allow_bv_decide": False,
     "required_theorems": ["SV.Props.C06.index_structure", "SV.Props.C06.string_end_eq", "SV.Props.C06.number_span_eq",
-                          "SV.Props.C06.navigate_eq", "SV.Props.C06.find_last_dup", "SV.Props.C06.decode_escapes_eq", "SV.Props.C06.raw_range_eq_partial"],
+                          "SV.Props.C06.navigate_eq", "SV.Props.C06.find_last_dup", "SV.Props.C06.decode_escapes_eq", "SV.Props.C06.raw_range_eq", "SV.Props.C06.navigate_eq_composed", "SV.Props.C06.prims_fast_eq", "SV.Props.C06.index_structure_preorder", "SV.Props.C06.docs_are_valid_texts", "SV.Props.C06.valid_texts_are_docs"],
     "nontrivial": _c06_nontrivial,
     "rule": "request = one document whose whole navigated tree is dumped, or one text-level kernel call; distinct request "
             "lines with at least 2 payload bytes",
